@@ -58,6 +58,10 @@ def table():
     add('expit', O.expit, 'R', None, glob=sp.expit, meth=lambda x: UTPM.expit(x))
     add('gammaln', mp.loggamma, 'gamma', None, glob=sp.gammaln, meth=lambda x: UTPM.gammaln(x))
     add('psi', mp.digamma, 'gamma', None, glob=sp.psi, meth=lambda x: UTPM.psi(x))
+    # between the poles on the negative axis (log|Gamma| is smooth there; mpmath's loggamma carries an additional +-i pi k)
+    add('gammaln_negative_axis', lambda z: mp.re(mp.loggamma(z)), 'gamma_neg', None, glob=sp.gammaln, meth=lambda x: UTPM.gammaln(x))
+    add('psi_negative_axis', mp.digamma, 'gamma_neg', None, glob=sp.psi, meth=lambda x: UTPM.psi(x))
+    add('polygamma1_negative_axis', lambda z: mp.psi(1, z), 'gamma_neg', None, glob=lambda x: sp.polygamma(1, x), meth=lambda x: UTPM.polygamma(1, x))
     for n in (0, 1, 2, 3):
         add('polygamma%d' % n, (lambda n: lambda x: mp.psi(n, x))(n), 'gamma', None,
             glob=(lambda n: lambda x: sp.polygamma(n, x))(n), meth=(lambda n: lambda x: UTPM.polygamma(n, x))(n))
@@ -108,7 +112,7 @@ def cases(tier, seed):
         for D in Ds:
             if name.startswith('hyperu') and D > (5 if tier == 'quick' else 6):
                 continue        # mp.taylor of mp.hyperu costs minutes beyond that
-            if name.startswith(('gammaln', 'psi', 'polygamma', 'erfi', 'dawsn')) and D > 8:
+            if name.startswith(('gammaln', 'psi', 'polygamma', 'erfi', 'dawsn')) and D > (8 if 'negative_axis' not in name else 5):
                 continue        # numerical differentiation of these mpmath functions is slow at high order
             for pat in pats:
                 for rep in range(reps):
@@ -355,9 +359,11 @@ def _piecewise(ctx, p, rng):
             ref = np.where(pick, data, d2)
         else:
             if name == 'clip_in':
-                lo, hi = -3.0, 3.0
+                lo, hi = [(-3.0, 3.0), (-3.0, np.inf), (-np.inf, 3.0), (-np.inf, np.inf)][(p['entry'] // 2) % 4]          # open sides
             else:
                 lo, hi = (0.1, 0.3) if p['entry'] % 2 else (-0.3, -0.1)   # every |x0|>=0.4 is outside (on either side)
+                if (p['entry'] // 2) % 3 == 1:
+                    lo, hi = (0.1, np.inf) if lo > 0 else (-np.inf, -0.1)          # one open side: inside where beyond the finite bound on the open side
             y = [algopy.special.botched_clip(lo, hi, x), UTPM.botched_clip(lo, hi, x)][p['entry'] % 2]
             inside = (data[0] >= lo) & (data[0] <= hi)
             ref = data * inside
